@@ -17,6 +17,8 @@ func Gen(run *vlib.Run, seed uint64, tier string) {
 	genLookupLists(run, r.Fork("lookuplist"), tier)
 	genSubtables(run, r.Fork("subtables"), tier)
 	genInfos(run, r.Fork("info"), tier)
+	genGdefs(run, r.Fork("gdef"), tier)
+	genFeatureLists(run, r.Fork("featurelist"), tier)
 }
 
 func pairsOf(x vlib.Sx) ([]pair, error) {
@@ -193,6 +195,34 @@ func RunCase(line string) (impl, fail, sig string, err error) {
 		}
 		impl, fail, _ = subEnc(d)
 		return impl, fail, "c08-subtable-" + d.kind, nil
+	case "fl-enc":
+		if len(items) != 2 {
+			return "", "", "", errors.New("fl-enc: want 1 argument")
+		}
+		fl, err := flOf(items[1])
+		if err != nil {
+			return "", "", "", err
+		}
+		impl, fail, _ = flEnc(fl)
+		return impl, fail, "c08-featurelist", nil
+	case "fl-read":
+		if len(items) != 3 {
+			return "", "", "", errors.New("fl-read: want 2 arguments")
+		}
+		data, e1 := vlib.AsBytes(items[1])
+		pos, e2 := vlib.AsInt(items[2])
+		if e1 != nil || e2 != nil {
+			return "", "", "", errors.New("fl-read: bad arguments")
+		}
+		impl, fail = flRead(data, pos)
+		return impl, fail, "c08-featurelist", nil
+	case "gdef":
+		d, err := gdefDescOf(items)
+		if err != nil {
+			return "", "", "", err
+		}
+		impl, fail = gdefCase(d)
+		return impl, fail, "c08-gdef", nil
 	case "info":
 		d, err := infoDescOf(items)
 		if err != nil {
